@@ -570,4 +570,45 @@ example : ∀ sm hm, verifyH callModule = .ok (sm, hm) →
     obtain ⟨k, hk⟩ := runGB_runsG callModule hm _ 11 _ _ _ _ hr
     exact ⟨k, v, rs, hk, key.1, key.2⟩
 
+/-- **the arity side condition is needed** (the verifier cannot know it: function values are dynamic).  `arityModule` is `callModule`
+with a second argument pushed for the one-parameter function `f`.  It verifies — every height re-checks —, but its run enters `f` with
+`sp = pp + 2`: one slot above the recorded height 0 of the entry, so `AtHeight` fails there, `f` adds the wrong operands' neighbours
+and returns with its "result" above a stale slot.  `stepOkB` refuses exactly the CALL (step 5): the decidable side-condition check
+returns `none`. In the language this is excluded by the type checker (C06), not by the bytecode verifier. -/
+def arityModule : Module := { callModule with
+  code := #[⟨.MARK, 6, 0, 0⟩, ⟨.INT, 7, 0, 0⟩, ⟨.INT, 9, 0, 0⟩, ⟨.GLOBAL_VEC, 0, 0, 0⟩, ⟨.ID_FUNC_ADDR, 9, 0, 0⟩, ⟨.CALL, 0, 0, 0⟩, ⟨.HALT, 0, 0, 0⟩,
+            ⟨.LABEL, 0, 0, 0⟩, ⟨.UNHANDLED_EXCEPTION, 0, 0, 0⟩,
+            ⟨.FUNC_DEF, 0, 0, 0⟩, ⟨.ID_LOCAL, 0, 0, 0⟩, ⟨.INT, 1, 0, 0⟩, ⟨.OP_ADD_INT, 0, 0, 0⟩, ⟨.RET, 0, 0, 0⟩,
+            ⟨.LABEL, 0, 0, 0⟩, ⟨.RETHROW, 0, 0, 0⟩],
+  exctab := #[⟨0, 7⟩, ⟨9, 14⟩, ⟨4294967295, 0⟩], excCount := 2, entryAddr := 9, fnParams := [(9, 1)] }
+
+example : (match verifyH arityModule with
+    | .ok (_, hm) =>
+      -- verified; the side-condition check fails; and after the CALL (6 steps) the machine is NOT at the recorded height of the entry
+      (runGB arityModule hm (fun _ => {}) 12 (beginExecute arityModule (Vm.new 64 32)) []).isNone &&
+      (runGB arityModule hm (fun _ => {}) 5 (beginExecute arityModule (Vm.new 64 32)) []).isSome &&
+      (match run arityModule (fun _ => {}) 6 (beginExecute arityModule (Vm.new 64 32)) with
+       | .ok v => v.ip == 9 && (hm[9]?.map (·.map (·.h))) == some (some 0) && v.sp == v.pp + 1 + 0 + 1
+       | .error _ => false)
+    | .error _ => false) = true := by decide +kernel
+
+/-- **the frame-word side condition is needed too, and the verifier as it stands does not imply it for calls in preparation.**
+`slideModule` verifies — `MARK`, one value, then an ordinary `SLIDE 5 1` (`q + m = 6 ≤ h = 6`) that moves the value down over the five
+frame words MARK has just pushed, then the function value and the marked `CALL` —: every height re-checks, but the SLIDE overwrites
+the saved-`pp` word of the live record while `fp` still points at it.  `stepOkB` refuses that step (index 2).  The verifier tracks
+heights, not which slots hold frame records of calls being prepared; the real emitter never slides across a MARK (checked on every
+replayed run by `stepOkB`), but a full `verify_sound` without this side condition is FALSE for `verifyH` as defined. -/
+def slideModule : Module := { callModule with
+  code := #[⟨.MARK, 6, 0, 0⟩, ⟨.INT, 1, 0, 0⟩, ⟨.SLIDE, 5, 1, 0⟩, ⟨.GLOBAL_VEC, 0, 0, 0⟩, ⟨.ID_FUNC_ADDR, 9, 0, 0⟩, ⟨.CALL, 0, 0, 0⟩, ⟨.HALT, 0, 0, 0⟩,
+            ⟨.LABEL, 0, 0, 0⟩, ⟨.UNHANDLED_EXCEPTION, 0, 0, 0⟩,
+            ⟨.FUNC_DEF, 0, 0, 0⟩, ⟨.ID_LOCAL, 0, 0, 0⟩, ⟨.RET, 0, 0, 0⟩, ⟨.LABEL, 0, 0, 0⟩, ⟨.RETHROW, 0, 0, 0⟩],
+  exctab := #[⟨0, 7⟩, ⟨9, 12⟩, ⟨4294967295, 0⟩], excCount := 2, entryAddr := 9, fnParams := [(9, 1)] }
+
+example : (match verifyH slideModule with
+    | .ok (_, hm) =>
+      (hm.toList.map fun o => o.map (·.h)) == [some 0, some 5, some 6, some 1, some 2, some 2, some 1, some 0, some 0, some 0, some 0, some 1, some 0, some 0] &&
+      (runGB slideModule hm (fun _ => {}) 2 (beginExecute slideModule (Vm.new 64 32)) []).isSome &&
+      (runGB slideModule hm (fun _ => {}) 3 (beginExecute slideModule (Vm.new 64 32)) []).isNone
+    | .error _ => false) = true := by decide +kernel
+
 end Never.C07
